@@ -389,20 +389,33 @@ def run_choose(ctx, only=None):
     for n in range(1, len(CHOOSE_VALUES) + 1):
         values = CHOOSE_VALUES[:n]
         cells = {'Sheet1!A%d' % (i + 1): v for i, v in enumerate(values)}
-        for idx in range(-1, n + 2):
-            cells['Sheet1!B%d' % (idx + 2)] = idx
+        # whole indices -1..n+1 and the fractional ones between them
+        indices = []
+        for i in range(-1, n + 2):
+            indices += [i, i + 0.5]
+        indices += [0.01, 0.99, n + 1.5]
+        rows = {}
+        for r, idx in enumerate(indices):
+            rows[idx] = r + 1
+            cells['Sheet1!B%d' % (r + 1)] = idx
         batch = Batch(cells)
-        for idx in range(-1, n + 2):
-            want = ref.choose(idx, list(values))
+        for idx in indices:
+            try:
+                want = ref.choose(idx, list(values))
+            except ref.Unjudged as u:
+                ctx.skip('unjudged:' + u.args[0], 4)
+                continue
             itag = 'index:in-range' if 1 <= idx <= n else (
                 'index:below-1' if idx < 1 else 'index:above-n')
+            if idx != int(idx):
+                itag += '-fractional'
             for vs in ('lit', 'ref'):
                 for is_ in ('lit', 'ref'):
                     vals = ','.join(
                         lit(v) if vs == 'lit' else 'A%d' % (i + 1)
                         for i, v in enumerate(values))
-                    itext = repr(idx) if is_ == 'lit' else 'B%d' % (idx + 2)
-                    batch.add('C15/choose/n=%d/i=%d/values=%s/index=%s'
+                    itext = repr(idx) if is_ == 'lit' else 'B%d' % rows[idx]
+                    batch.add('C15/choose/n=%d/i=%s/values=%s/index=%s'
                               % (n, idx, vs, is_),
                               '=CHOOSE(%s,%s)' % (itext, vals),
                               {'fn:CHOOSE', itag, 'spell:values-' + vs,
